@@ -863,9 +863,10 @@ func (p *sshFxpReadPacket) getDataSlice(alloc *allocator, orderID uint32, maxTxP
 		dataLen = maxTxPacket
 	}
 
-	if alloc != nil {
+	if alloc != nil && dataLen <= maxMsgLength {
 		// GetPage returns a slice with capacity = maxMsgLength this is enough to avoid new allocations in
 		// sshFxpDataPacket.MarshalBinary
+		// (a server configured with a larger maxTxPacket can be asked for more than a page holds)
 		return alloc.GetPage(orderID)[:dataLen]
 	}
 
